@@ -68,7 +68,13 @@ func ZZ_C11_edsFaults() {
 	}
 	c.EDS = append(c.EDS, ds)
 	c.InjectFaults = true
-	_, err1 := zzReconcile(zzReconciler(c), "ns", "foo")
+	first := zzReconciler(c)
+	_, err1 := zzReconcile(first, "ns", "foo")
+	// afterwards either the same instance keeps running or a fresh one takes over
+	next := func() *Reconciler { return zzReconciler(c) }
+	if nondet.Bool("sameInstanceSurvives") {
+		next = func() *Reconciler { return first }
+	}
 	faulted := false
 	for _, e := range c.Log {
 		if e.Failed {
@@ -95,10 +101,10 @@ func ZZ_C11_edsFaults() {
 	if scenario == "promotion" {
 		nondet.Assert("C11.eds.mid-active", mid.Status.ActiveReplicaSet == "foo-a" || mid.Status.ActiveReplicaSet == "foo-b")
 	}
-	// recovery by a fresh instance, no faults: at most three reconciles reach the final state
+	// recovery (surviving or fresh instance), no faults: at most three reconciles reach the final state
 	c.InjectFaults = false
 	for i := 0; i < 3; i++ {
-		_, err := zzReconcile(zzReconciler(c), "ns", "foo")
+		_, err := zzReconcile(next(), "ns", "foo")
 		nondet.Assert("C11.eds.recovery-ok", err == nil)
 	}
 	final := zzStoredEDS(c, "ns", "foo")
@@ -113,7 +119,7 @@ func ZZ_C11_edsFaults() {
 	// set for the template, and it is the active one — also after an applied-but-lost create
 	nondet.Assert("C11.eds.one-replicaset-for-template", matching == 1)
 	n := len(c.Log)
-	_, _ = zzReconcile(zzReconciler(c), "ns", "foo")
+	_, _ = zzReconcile(next(), "ns", "foo")
 	writes := 0
 	for _, e := range c.Log[n:] {
 		if e.Verb != "get" && e.Verb != "list" {
